@@ -139,6 +139,10 @@ class Auto:
         return ks
 
 
+def same_item_up_to_level(a, b):
+    return with_level(a, None) == with_level(b, None)
+
+
 def dfa_of(r):
     index = {r: 0}
     order = [r]
@@ -147,8 +151,11 @@ def dfa_of(r):
     while i < len(order):
         cur = order[i]
         row = {}
-        for a in sorted(first(cur), key=repr):
-            d = deriv(cur, a)
+        fs = sorted(first(cur), key=repr)
+        for a in fs:
+            # `||` is transparent to matching (README; C09): the same item expected in several `||`
+            # branches is one expectation whose continuation is the union of all of them.
+            d = alt(*[deriv(cur, a2) for a2 in fs if same_item_up_to_level(a, a2)])
             if d == EMPTY:
                 continue
             if d not in index:
@@ -459,3 +466,14 @@ def expected_rejection(resolver, auto):
                 if m.trans[t]:
                     return 'UnboundedMatchable'
     return None
+
+
+def tolerated_rejections(resolver):
+    """Rejections that are not predicted exactly but are not treated as generator failures either:
+    complgen's placeholder-inside-a-word rule is stricter than 'must be the last item' (it also
+    rejects `--o=[foo]<_>`); C08 is not claimed, so such grammars are only counted."""
+    for m in resolver.sub_autos:
+        for row in m.trans:
+            if ('any',) in row:
+                return {'UnboundedMatchable'}
+    return set()
